@@ -533,3 +533,5 @@ _BP = _os.path.join(_os.path.dirname(_os.path.abspath(__file__)), "benign_patche
 for _p in ("C19", "C15", "C11"):
     VARIANTS.append({"prop": _p, "id": f"{_p}:benign5-download-one-helper", "expect": "S", "rule": "", "edits": [],
                      "patchfile": _os.path.join(_BP, "c19-download-one-helper.diff")})
+V("C16", "unhashable-toml-values", "F", "R1", GLP, "        try:\n            return set(value)\n        except TypeError:\n", "        try:\n            return set(value)\n        except ValueError:\n")
+V("C16", "gitmodules-valueless-key", "F", "R1", R + "vcs.py", '            Path(entry.split("\\n", 1)[1])\n            for entry in submodule_entries\n            if "\\n" in entry\n', '            Path(entry.splitlines()[1])\n            for entry in submodule_entries\n')
